@@ -187,6 +187,10 @@ class Tree:
                 f.qual = k.split(":", 1)[1]  # the function answers to its pinned key (rules, tables of legitimate sites)
                 self.funcs[k] = f
                 self.moved.append(f"{k} -> {best} ({score:.2f})")
+        if self.moved:
+            # the re-found functions get their pinned parameter / local vocabulary too
+            self._canonical_params()
+            self._canonical_locals("local_names_norm.json")
 
     def _normalise_bodies(self):
         from .normalise import inline_aliases, loops_to_comprehensions, positive_ifexps, unroll_literal_loops, updates_to_loops, inline_single_use_temps, forward_attr_stores, searches_to_loops, genexp_loops, split_webs, ifexp_to_if, default_none_gets, while_true_breaks, integer_attributes, explicit_to_augmented, hoist_walrus
